@@ -70,9 +70,30 @@ def runAll (s : St) : List Ev → List String → List String
     let s' := step s e
     runAll s' es (summary s' :: acc)
 
+def parseOEv (t : String) : Option OEv :=
+  match t.splitOn ":" with
+  | ["aw", cs] => (parseChs cs).map .addWanted
+  | ["rw", cs] => (parseChs cs).map .removeWanted
+  | ["ar", cs] => (parseChs cs).map .accReg
+  | ["au", cs] => (parseChs cs).map .accUnreg
+  | ["drop"] => some .drop
+  | ["conn"] => some .reconnect
+  | _ => none
+
+/-- `sb.overlap <init wanted> <events...>`: `wanted/registered` after every event -/
+def overlapAll : OSt → List OEv → List String → List String
+  | _, [], acc => acc.reverse
+  | s, e :: es, acc =>
+    let s' := ostep s e
+    overlapAll s' es (s!"{showChs s'.wanted}/{showChs s'.registered}" :: acc)
+
 def handle : List String → Option String
   | "sb.run" :: toks =>
     (toks.mapM parseEv).map fun evs => " ; ".intercalate (runAll {} evs [])
+  | "sb.overlap" :: init :: toks =>
+    match parseChs init, toks.mapM parseOEv with
+    | some w, some evs => some (" ".intercalate (overlapAll { wanted := w, registered := [] } evs []))
+    | _, _ => some "bad-op"
   | _ => none
 
 end HapVerif.Drv.Subs
